@@ -95,6 +95,13 @@ def Net.authCode (g : Net) (i j : Nat) : Nat :=
     ∧ (g.cfg i).starting = (g.cfg j).starting ∧ (g.cfg i).conciliation = (g.cfg j).conciliation
   if isolatedThere then 2 else if !sameStrategies then 3 else 1
 
+/-- `RPCInterface.restart` / `shutdown` once the state gate is passed: `fsm.on_restart` / `on_shutdown`; the error they
+    raise when no Master is known is answered as the documented fault BAD_SUPVISORS_STATE (no internal error) -/
+def Net.rpcEnd (g : Net) (now : Nat) (j : Nat) (shutdown : Bool) : Net × Obs :=
+  let (g', e, o) := g.handle now j (if shutdown then .shutdown else .restart)
+  let e' := match e with | some .noMaster => none | x => x
+  (g', [(j, e', o)])
+
 /-- one step of the proxy thread of `i` dedicated to `j` -/
 def Net.exec (g : Net) (now : Nat) (i j : Nat) : Net × Obs :=
   match g.queue i j with
@@ -125,11 +132,11 @@ def Net.exec (g : Net) (now : Nat) (i j : Nat) : Net × Obs :=
       if g.up.getD i false then ({ g with inbox := g.inbox.set i (g.inbox.getD i [] ++ [op]) }, []) else (g, [])
     | .restartAll =>
       if g.reachable i j then
-        (if gate (((g.inst j).modes.getD j {}).fsm) then let (g', e, o) := g.handle now j .restart; (g', [(j, e, o)]) else (g, []))
+        (if gate (((g.inst j).modes.getD j {}).fsm) then g.rpcEnd now j false else (g, []))
       else (g.proxyFailure i j, [])
     | .shutdownAll =>
       if g.reachable i j then
-        (if gate (((g.inst j).modes.getD j {}).fsm) then let (g', e, o) := g.handle now j .shutdown; (g', [(j, e, o)]) else (g, []))
+        (if gate (((g.inst j).modes.getD j {}).fsm) then g.rpcEnd now j true else (g, []))
       else (g.proxyFailure i j, [])
     | .restartLocal => ({ g with orders := g.orders.set j (g.orders.getD j [] ++ ["restart"]) }, [])
     | .shutdownLocal => ({ g with orders := g.orders.set j (g.orders.getD j [] ++ ["shutdown"]) }, [])
@@ -158,9 +165,7 @@ def gateFromDistribution (f : SState) : Bool :=
 
 /-- user XML-RPC restart / shutdown on instance `i` -/
 def Net.rpcRestart (g : Net) (now : Nat) (i : Nat) (shutdown : Bool) : Net × Obs :=
-  if gateFromDistribution (fsmOfInst g i) then
-    let (g', e, o) := g.handle now i (if shutdown then .shutdown else .restart)
-    (g', [(i, e, o)])
+  if gateFromDistribution (fsmOfInst g i) then g.rpcEnd now i shutdown
   else (g, [])
 
 /-- user XML-RPC end_sync on instance `i` (all documented rejections are no-ops here) -/
